@@ -3,7 +3,7 @@
 manifest is always valid and complete)."""
 import json, os
 ROOT = os.path.dirname(os.path.abspath(__file__))
-props = json.load(open(os.path.join(ROOT, "props.json")))
+props = {fn[:-5]: json.load(open(os.path.join(ROOT, "props.d", fn))) for fn in sorted(os.listdir(os.path.join(ROOT, "props.d"))) if fn.endswith(".json")}
 allp = [json.loads(l) for l in open(os.path.join(ROOT, "properties.jsonl")) if l.strip()]
 baseline = json.load(open("/root/.vp/BASELINE.json"))["cmd"] if os.path.exists("/root/.vp/BASELINE.json") else ""
 hooks_commits = []
@@ -41,7 +41,7 @@ m = {
                  "serves_properties": [c["property_id"] for c in checks],
                  "kind_free_text": "Lean 4 models + theorems (lean/), Go fact extractor and differential harness (harness/), Python driver (check)"}],
     "checks": checks,
-    "notes": "Every check regenerates lean/XlModel/Generated/Facts.lean from /repo, rebuilds the property's theorems, audits axioms, builds the Go harness against /repo with -tags verif, runs direct oracles and the model-vs-implementation transcript diff. Known findings: /verif/known_findings.json.",
+    "notes": "Known findings: /verif/known_findings.d/<id>.json (committed, never written at run time). Every check regenerates lean/XlModel/Generated/Facts.lean from /repo, rebuilds the property's theorems, audits axioms, builds the Go harness against /repo with -tags verif, runs direct oracles and the model-vs-implementation transcript diff.",
     "not_applicable": na,
 }
 json.dump(m, open(os.path.join(ROOT, "MANIFEST.json"), "w"), indent=1)
